@@ -6,6 +6,14 @@ ALL = ["C%02d" % i for i in range(1, 21)]
 
 # property -> (level, design_ref, engine, technique, level text, level note)
 CLAIMED = {
+ "C09": ("model_checking", "DESIGN.md §2 C09", "vp",
+   "exhaustive enumeration of duration tuples and of timer-heap add/delete/advance histories on the real event loop driven by a virtual clock",
+   "The real qb_loop runs with clock_gettime/clock_getres/epoll_wait wrapped: the virtual clock advances by exactly the timeout the loop passes to epoll_wait, so sleeping past an expiry or blocking without a timeout is observed directly. All tuples of up to 3 timers with durations from 0 to 2^64-1 ns (incl. the 2^31 and 2^32 ms boundaries) x priorities, with and without a queued job, are run for up to 12000 iterations of virtual time; all histories of up to 7 (thorough 9) operations over add(10/20/30 ms), delete(k-th pending) and run-for-10-ms exercise the heap. Oracle: never early, at most slack late, expiry order within a priority, every poll timeout finite and not beyond the earliest expiry + slack, deleted timers never fire, is_running/time_remaining consistent.",
+   "Slack = 2 ms (+50 ms once a job was queued); what is_running reports between expiry and dispatch is not judged; durations limited to the listed boundary set."),
+ "C10": ("model_checking", "DESIGN.md §2 C10", "vp",
+   "exhaustive enumeration of workloads on the real event loop (deterministic run, rotation period 3, fixed horizon) with a window oracle",
+   "All 13^3 workloads — per priority nothing or m in {1,2,5,9} self-re-adding jobs, always-ready eventfds or zero-delay self-re-arming timers — optionally with a one-shot job injected into any level at iteration 1..6, are run on the real qb_loop for 30 (thorough 90) iterations of a virtual clock; every window of three consecutive iterations must contain a dispatch for every level that has pending work, a one-shot job must run within a bounded number of iterations, and higher levels get at least as many turns as lower ones.",
+   "Turns are compared only between levels whose work is pending in every iteration (jobs; descriptors while all ready ones fit the 12-event poll batch); a re-armed zero-delay timer counts as pending from the next iteration."),
  "C15": ("exploration", "DESIGN.md §2 C15", "vp",
    "exhaustive enumeration of record sequences (round trip after every record) and of a damage grammar over real dump files, each printed by the real reader under ASan",
    "Round trip: every sequence of up to 5 (thorough 7) log calls of four kinds, after 0/7/9/12 filler records (so the ring wraps), into blackboxes of three sizes; after every record the blackbox is dumped, printed, and the captured output compared field by field (priority, function, line, tags, timestamp, text) with the newest records. Robustness: three valid dumps damaged by every truncation length, every header word x 12 boundary values with and without repaired hash, pairs of header words, every field of the oldest record x 10 values, every single byte flipped, short files announcing tiny rings, arbitrary small files: the print call must return without crash, assertion or sanitizer report and leave /dev/shm unchanged.",
